@@ -238,6 +238,13 @@ def kani_replay(crate_dir, harness, features=None, keep_dir=None, unwind_timeout
     try:
         dst = os.path.join(scratch, "crate")
         shutil.copytree(crate_dir, dst, ignore=shutil.ignore_patterns("target"))
+        # includes that are relative to /verif (generated files under cache/) must survive the move
+        for pth in glob.glob(os.path.join(dst, "src", "**", "*.rs"), recursive=True):
+            with open(pth) as fh:
+                txt = fh.read()
+            if "../../../cache/" in txt:
+                with open(pth, "w") as fh:
+                    fh.write(txt.replace("../../../cache/", CACHE + "/"))
         tdir = os.path.join(scratch, "target")
         cmd = ["cargo", "kani", "--target-dir", tdir, "-Z", "unstable-options", "-Z", "concrete-playback",
                "--concrete-playback=print", "--harness-timeout", "%ds" % unwind_timeout,
